@@ -19,6 +19,7 @@ import re
 import copy
 
 from ..prog import AnalysisError, dotted, unparse
+from .. import sem
 from ..absint import to_poly, Poly
 from ..flow import cond_atoms
 from ..match import pretty
@@ -308,6 +309,46 @@ def gdt_rules(ctx):
     ctx.ob("C11.gdt", "facilities", "typed-differences-seen", n_sub >= 1, f"{n_sub} wrap-aware differences of GenerationDeltaTime objects found (type inference sees them)", loc)
 
 
+def report_keys(ctx):
+    """A position report may lack any optional field (no fix yet, standstill, accuracy unknown): every `report['k']` read on
+    the transmission paths must be dominated by a presence test of that key (`'k' in report`), as the CA service does
+    throughout - otherwise such a report raises KeyError and the message is not generated."""
+    P = ctx.prog
+    n = 0
+    for modname in (CAMM, VAMM):
+        m = P.module(modname)
+        for fi in P.iter_funcs():
+            if fi.module is not m:
+                continue
+            reports = [p_ for p_ in fi.params if p_ in ("tpv", "current_tpv")]
+            if not reports:
+                continue
+            fl = ctx.flows.get(fi)
+            bad = []
+            for node in ast.walk(fi.node):
+                if isinstance(node, ast.Subscript) and isinstance(node.ctx, ast.Load) and isinstance(node.value, ast.Name) \
+                        and node.value.id in reports and isinstance(node.slice, ast.Constant) and isinstance(node.slice.value, str):
+                    k = node.slice.value
+                    n += 1
+                    try:
+                        fs = sem.facts(fl, node, expanded=False)
+                    except AnalysisError:
+                        continue
+                    r = node.value.id
+                    present = {f"in('{k}',{r})", f"in('{k}',{r}.keys())", f"!is(None,{r}.get('{k}'))", f"truthy({r}.get('{k}'))"}
+                    if not (fs & present):
+                        bad.append((k, node.lineno))
+            if reports:
+                keys = sorted({k for k, _ in bad})
+                ctx.ob("C11.report-keys", fi.short(), "presence-tested", not bad,
+                       "every field of the report is read only after its presence was tested" if not bad else
+                       f"the report fields {keys} are read without a presence test (first at line {bad[0][1]}): a report lacking one of them "
+                       "(no fix yet, standstill without speed/track) raises KeyError and no message is generated", fi.loc)
+    ctx.extra["report_field_reads"] = n
+    if n < 20:
+        raise AnalysisError(f"C11: only {n} report field reads found (confirmed: > 30)")
+
+
 def run(ctx):
     ctx.explanation = (
         "Schema conformance (K9) and interval interpretation (K10). The ASN.1 modules the repository ships as string constants "
@@ -341,6 +382,7 @@ def run(ctx):
         ("facilities.decentralized_environmental_notification_service.denm_reception_management.DENMReceptionManagement.reception_callback", "denm")])
     ctx.extra["reader_paths"] = nr
     gdt_rules(ctx)
+    report_keys(ctx)
     ctx.floor("C11.gdt", 6)
     ctx.floor("C11.schema", 325, "typed positions")
     ctx.floor("C11.range", 120, "computed integers")
